@@ -774,6 +774,68 @@ func registerStd(reg func(string, externalFn)) {
 		}
 		return strings.Contains(s, pat)
 	})
+	// debug/elf boundary: the parsed representation comes from the harness
+	reg(symPkg+".Native", func(in *Interp, fr *frame, args []value) value { return false })
+	reg(symPkg+".SetELF", func(in *Interp, fr *frame, args []value) value {
+		in.p.elfFile = args[0]
+		if i, ok := args[0].(iface); ok {
+			in.p.elfFile = i.v
+		}
+		in.p.elfOpenFails = args[1]
+		return nil
+	})
+	reg(symPkg+".AttachData", func(in *Interp, fr *frame, args []value) value {
+		ptr := args[0].(iface).v.(*value)
+		if in.p.blobs == nil {
+			in.p.blobs = map[*value]blob{}
+		}
+		in.p.blobs[ptr] = blob{data: args[1], fail: args[2]}
+		return nil
+	})
+	reg("debug/elf.Open", func(in *Interp, fr *frame, args []value) value {
+		if in.p.elfFile == nil {
+			panic(abortPath{"harness-error", "elf.Open without sym.SetELF"})
+		}
+		if b, _ := in.p.elfOpenFails.(bool); b {
+			return tuple{(*value)(nil), in.mkError("open failed", nil)}
+		}
+		return tuple{in.p.elfFile, iface{}}
+	})
+	reg("(*debug/elf.File).Close", func(in *Interp, fr *frame, args []value) value { return iface{} })
+	reg("(*debug/elf.Section).Data", func(in *Interp, fr *frame, args []value) value {
+		b, ok := in.p.blobs[args[0].(*value)]
+		if !ok {
+			panic(abortPath{"harness-error", "Section.Data without sym.AttachData"})
+		}
+		if f, _ := b.fail.(bool); f {
+			return tuple{[]value(nil), in.mkError("read failed", nil)}
+		}
+		src := b.data.([]value)
+		cp := make([]value, len(src))
+		copy(cp, src)
+		return tuple{cp, iface{}}
+	})
+	reg("(*debug/elf.Prog).Open", func(in *Interp, fr *frame, args []value) value {
+		return iface{t: types.Typ[types.UnsafePointer], v: args[0]}
+	})
+	reg("io.ReadAll", func(in *Interp, fr *frame, args []value) value {
+		r := args[0].(iface)
+		ptr, ok := r.v.(*value)
+		if !ok {
+			panic(abortPath{"unsupported", "io.ReadAll of an unknown reader"})
+		}
+		b, ok := in.p.blobs[ptr]
+		if !ok {
+			panic(abortPath{"harness-error", "io.ReadAll without sym.AttachData"})
+		}
+		if f, _ := b.fail.(bool); f {
+			return tuple{[]value(nil), in.mkError("read failed", nil)}
+		}
+		src := b.data.([]value)
+		cp := make([]value, len(src))
+		copy(cp, src)
+		return tuple{cp, iface{}}
+	})
 	// terminal / stdin boundary
 	reg("golang.org/x/crypto/ssh/terminal.GetSize", func(in *Interp, fr *frame, args []value) value {
 		h := in.p.termHeight
